@@ -21,7 +21,7 @@ RLIMIT_1 = {'quick': 25 * 10 ** 6, 'thorough': 80 * 10 ** 6}
 RLIMIT_2 = {'quick': 250 * 10 ** 6, 'thorough': 800 * 10 ** 6}
 WALL_BACKSTOP_S = 1800
 WORKER_MEMORY_MB = 2500
-CVC5_WALL_S = {'quick': 60, 'thorough': 180}
+CVC5_WALL_S = {'quick': 60, 'thorough': 45}
 CVC5 = '/usr/bin/cvc5'
 
 
